@@ -105,3 +105,18 @@ Theorem C15_normalise_relabels :
     (forall z, In z (all_present (amap f a)) <-> s <= z < s + Z.of_nat k).
 Proof. exact normalise_cells_relabels. Qed.
 Print Assumptions C15_normalise_relabels.
+
+(* Point cells and cell connectivity (Topology._normalise_cell_ids).
+   Full statement: for every array a whose first column holds distinct identifiers,
+     normalise_ids s rm a = Ok b -> normalise_ids s rm b = Ok b.
+   Proved here: the second half of that argument - an array in canonical form (first column
+   start_index, start_index + 1, ..., every value within that range) is returned unchanged.
+   Missing: that the relabelling loop always produces the canonical form; the harness checks
+   that on every observed result (ids, range, idempotence) instead. *)
+Theorem C15_normalise_ids_idempotent_partial :
+  forall s a n, s = 0 \/ s = 1 ->
+  first_col a = Some (zseq s (S n)) ->
+  Forall (fun v => s <= v <= s + Z.of_nat n) (all_present a) ->
+  normalise_ids s false a = Ok a.
+Proof. exact normalise_ids_fixpoint. Qed.
+Print Assumptions C15_normalise_ids_idempotent_partial.
